@@ -7,7 +7,7 @@ Require Import BB.Gen.Grammar BB.Gen.TablesXsl.
 Require Import BB.Base.Dict BB.Model.Peg BB.Model.Types BB.Proofs.Tables BB.Proofs.EscapeLossless.
 Require Import BB.Proofs.Totality BB.Proofs.PegPlain BB.Proofs.EscapedTextParses.
 Require Import BB.Model.UnparseDoc BB.Proofs.UnparseText BB.Proofs.PegLine BB.Proofs.WrittenText BB.Proofs.LineRule.
-Require Import BB.Base.Dict BB.Model.Types BB.Model.Peg BB.Gen.TablesParser BB.Model.Convert BB.Model.Eid BB.Model.EidSpec BB.Model.PreParse BB.Model.XmlGen BB.Gen.TablesLibs BB.Proofs.Totality BB.Proofs.PlainLineConvert BB.Proofs.ParagraphRoundTrip BB.Proofs.HierElement BB.Proofs.HierElementConvert BB.Proofs.SectionRoundTrip.
+Require Import BB.Base.Dict BB.Model.Types BB.Model.Peg BB.Gen.TablesParser BB.Model.Convert BB.Model.Eid BB.Model.EidSpec BB.Model.PreParse BB.Model.XmlGen BB.Gen.TablesLibs BB.Proofs.Totality BB.Proofs.PlainLineConvert BB.Proofs.ParagraphRoundTrip BB.Proofs.HierElement BB.Proofs.HierElementConvert BB.Proofs.HierNoHeading BB.Proofs.HierNoHeadingConvert BB.Proofs.SectionRoundTrip.
 
 (* the hand-maintained keyword list of escape-prefixes covers every keyword literal of the grammar,
    except the committed gaps *)
@@ -174,4 +174,24 @@ Example C06_section_round_trip_example :
   let x := hier_x (of_string "subsection") [(EID, of_string "chp_2__subsec_3A")] [(EID, of_string "chp_2__subsec_3A__p_1")]
                   (of_string "(3A)") (of_string "PART 1 - **x** {{^y}} \\ //z") (of_string "SUBHEADING P{a b} __u__ {{*r}}") in
   convert (of_string "/akn/za/act/2009/1") (of_string "hier_element") (of_string "chp_2") (unparse_doc x) = OkR x.
+Proof. vm_compute. reflexivity. Qed.
+
+
+(* ... and for the element without a heading (`KEYWORD num`, blank line, indented paragraph): the same round trip *)
+Theorem C06_section_round_trip_no_heading : forall uri prefix kw n t root_meta att_meta,
+  assoc_str uri meta_templates = Some (root_meta, att_meta) ->
+  In kw hier_keywords ->
+  num_ok n -> Forall (fun c => c <> TAB /\ c <> 13 /\ c <> 45) n -> py_isspace (last n 0) = false -> clean_num n <> [] -> valid_text n = true ->
+  line_text t ->
+  let tag := hier_name kw in
+  let cand := candidate prefix tag (clean_num n) in
+  let x := hier_x_nh tag [(EID, cand)] [(EID, cand ++ DUSCORE ++ P1)] n t in
+  convert uri (of_string "hier_element") prefix (unparse_doc x) = OkR x.
+Proof. exact section_round_trip_nh. Qed.
+Print Assumptions C06_section_round_trip_no_heading.
+
+Example C06_section_round_trip_no_heading_example :
+  let x := hier_x_nh (of_string "paragraph") [(EID, of_string "sec_1__para_a")] [(EID, of_string "sec_1__para_a__p_1")]
+                     (of_string "(a)") (of_string "SEC 2. - **x** {{^y}} \\ //z P{a b}") in
+  convert (of_string "/akn/za/act/2009/1") (of_string "hier_element") (of_string "sec_1") (unparse_doc x) = OkR x.
 Proof. vm_compute. reflexivity. Qed.
